@@ -217,8 +217,13 @@ theorem last_release_sends_to_collector {p : Prog} {hh : Hist} {s s' : St} (ht :
 theorem collector_drains (s : St) (e : Nat) (es : List Nat) (h : s.autoChan = e :: es) :
     (doGc s).autoChan = es ∧ (doGc s).stack = .despawnWork [(e, false)] :: .gc :: s.stack := gc_takes_oldest s e es h
 
-theorem collector_despawns (s : St) (e : Nat) (work : List (Nat × Bool)) :
-    doDespawnWork s ((e, true) :: work) = (despawn1 s e).push [.despawnWork work] := despawn_work_kills s e work
+theorem collector_despawns (s : St) (e : Nat) (work : List (Nat × Bool)) (hw : s.wq = []) :
+    doDespawnWork s ((e, true) :: work) = (despawn1 s e).push [.despawnWork work] := despawn_work_kills s e work hw
+
+/-- With commands waiting on the world's queue (only possible under a command an exclusive body applies in-line),
+    `World::despawn` applies them first and then removes the entity. -/
+theorem collector_flushes_first (s : St) (e : Nat) (work : List (Nat × Bool)) (hw : s.wq ≠ []) :
+    doDespawnWork s ((e, true) :: work) = s.push [.flush, .despawnWork ((e, true) :: work)] := despawn_work_flushes_first s e work hw
 
 /-- Non-vacuity: a revokable reactor with two triggers is registered, then revoked, then a frame ends: after the revoke
     its count is 0 and it is on the collector's channel; after the frame it is gone and the tables are empty. -/
